@@ -117,10 +117,14 @@ def edge_forms(text: str):
     yield f'cut:{nasty_cuts(text)}', lambda: cut(text, nasty_cuts(text))
 
 
-def lex_record(text: str, o: dict, forms, kind: str, extra_sig: dict | None = None) -> dict:
+class HarnessError(TokenSyntaxError):
+    """A caller-supplied error class: the tokenizer must raise exactly this type when given it."""
+
+
+def lex_record(text: str, o: dict, forms, kind: str, extra_sig: dict | None = None, error_type=TokenSyntaxError) -> dict:
     groups: dict = {}
     for name, make in forms:
-        out = toklib.tokenize(make(), o)
+        out = toklib.tokenize(make(), o, nchars=len(text), error_type=error_type)
         key = toklib.outcome_key(out)
         if key not in groups:
             groups[key] = dict(out, forms=[])
@@ -131,7 +135,7 @@ def lex_record(text: str, o: dict, forms, kind: str, extra_sig: dict | None = No
         g['forms'] = g['forms'][:6]
     sig = {'kind': kind, 'action': 'tokenize', 'o': ''.join(str(int(o[n])) for n in toklib.OPT_NAMES)}
     sig.update(extra_sig or {})
-    return {'k': 'lex', 'text': cps(text), 'o': o, 'fold': toklib.fold_table(text), 'etype': ETYPE,
+    return {'k': 'lex', 'text': cps(text), 'o': o, 'fold': toklib.fold_table(text), 'etype': error_type.__name__,
             'outs': outs, 'sig': sig}
 
 
@@ -150,13 +154,14 @@ class CountIter:
         return v
 
 
-class StepLimit(Exception):
-    """More cursor operations than any linear bound allows: logged as an observation."""
+StepLimit = toklib.StepLimit
 
 
 def watched_run(text: str, o: dict, chunks=None) -> tuple:
     """Tokenize with Tokenizer._next_char wrapped from outside.  -> (events, cursor ops, outcome)"""
     src = CountIter(chunks) if chunks is not None else None
+    toklib.install_step_counter()
+    toklib.set_step_limit(len(text))
     tok = Tokenizer(src if src is not None else text, None, TokenSyntaxError, **toklib.opts_kwargs(o))
     orig = tok._next_char
     ev: list = []
@@ -171,8 +176,6 @@ def watched_run(text: str, o: dict, chunks=None) -> tuple:
         if tok._char_index != state['idx']:
             ops.append(cur_obs('rewind' if tok._char_index == state['idx'] - 1 else 'jump', 0))
         line, cr = tok.line_num, tok._last_was_cr
-        if len(ops) > 4 * (len(text) + 2) + 16:
-            raise StepLimit(f'{len(ops)} cursor operations on {len(text)} characters')
         c = orig()
         code = ord(c) if c is not None else -1
         if not state['done']:
@@ -339,8 +342,12 @@ def mode_cursor(edges_path: str, out: str) -> None:
         ops = []
         for op in seq:
             if op == 'next':
-                c = tok._next_char()
-                res = ord(c) if c is not None else -1
+                try:
+                    c = tok._next_char()
+                    res = ord(c) if c is not None else -1
+                except Exception as exc:  # noqa: BLE001 - an exception here is an observation
+                    ops.append({'op': 'exception:' + type(exc).__name__, 'res': 0, 'it': 0, 'idx': 0, 'cur': []})
+                    break
             else:
                 tok._char_index -= 1
                 res = 0
@@ -386,7 +393,8 @@ def mode_random(out: str) -> None:
         o = toklib.opts_from_bits(bits)
         if rng.random() < 0.5:
             o['star'] = True
-        w.write(lex_record(text, o, big_forms(text, rng), 'random'))
+        w.write(lex_record(text, o, big_forms(text, rng), 'random',
+                           error_type=(TokenSyntaxError, KeyValError, HarnessError)[k % 3]))
         if k % 4 == 0:
             w.write(steps_record(text, o, None, 'random'))
         if k % 4 == 1 and len(text) <= 60:
@@ -397,6 +405,93 @@ def mode_random(out: str) -> None:
     print(json.dumps({'records': w.n}))
 
 
+# ------------------------------------------------------------------ caller operations
+PUSHABLE = ['STRING', 'NEWLINE', 'BRACE_OPEN', 'PROP_FLAG', 'EOF', 'COMMA', 'DIRECTIVE']
+EXPECTABLE = ['STRING', 'NEWLINE', 'BRACE_OPEN', 'BRACE_CLOSE', 'EOF', 'PROP_FLAG']
+
+
+def rand_script(rng: random.Random, n: int) -> list:
+    out = []
+    for _ in range(n):
+        r = rng.random()
+        if r < 0.5:
+            out.append({'op': 'call'})
+        elif r < 0.72:
+            out.append({'op': 'peek'})
+        elif r < 0.85:
+            out.append({'op': 'push', 't': rng.choice(PUSHABLE), 'v': cps(rng.choice(['', 'x', 'p q', '\n']))})
+        else:
+            out.append({'op': 'expect', 't': rng.choice(EXPECTABLE), 'skip': rng.random() < 0.6})
+    return out
+
+
+def run_script(data, o: dict, script: list) -> dict:
+    from srctools.tokenizer import Token
+    toklib.install_step_counter()
+    tok = Tokenizer(data, None, TokenSyntaxError, **toklib.opts_kwargs(o))
+    res = []
+    err, etype, msg = toklib.NO_ERR, '', ''
+    toklib.watchdog_on()
+    try:
+        for op in script:
+            if op['op'] == 'call':
+                t, v = tok()
+                res.append({'t': t.name, 'v': cps(v), 'l': tok.line_num})
+            elif op['op'] == 'peek':
+                t, v = tok.peek()
+                res.append({'t': t.name, 'v': cps(v), 'l': tok.line_num})
+            elif op['op'] == 'push':
+                tok.push_back(Token[op['t']], uncps(op['v']))
+                res.append({'t': '', 'v': [], 'l': tok.line_num})
+            else:
+                v = tok.expect(Token[op['t']], op['skip'])
+                res.append({'t': op['t'], 'v': cps(v), 'l': tok.line_num})
+    except Exception as exc:  # noqa: BLE001
+        err, etype, msg = toklib.classify_error(exc, TokenSyntaxError)
+    finally:
+        toklib.watchdog_off()
+    return {'res': res, 'err': err, 'etype': etype, 'msg': msg}
+
+
+def calls_record(text: str, o: dict, script: list, kind: str) -> dict:
+    groups: dict = {}
+    for name, make in edge_forms(text):
+        toklib.set_step_limit(len(text))
+        out = run_script(make(), o, script)
+        key = json.dumps(out, sort_keys=True)
+        if key not in groups:
+            groups[key] = dict(out, forms=[])
+        groups[key]['forms'].append(name)
+    return {'k': 'calls', 'text': cps(text), 'o': o, 'fold': toklib.fold_table(text), 'etype': ETYPE,
+            'script': script, 'outs': list(groups.values()),
+            'sig': {'kind': kind, 'action': 'call/peek/push_back/expect',
+                    'ops': ','.join(sorted({op['op'] for op in script}))}}
+
+
+CALL_TEXTS = ['a "b"\n{ x [f]\r\n}', '"k" "v" [!f]\n', '\n\n a \n', '"unterminated', 'a // c\n b', '{ } , =', '', 'a ]']
+
+
+def mode_calls(out: str) -> None:
+    rng = random.Random(5000 + hlib.seed())
+    thorough = hlib.tier() == 'thorough'
+    w = hlib.RecWriter(out)
+    basic = [{'op': 'call'}, {'op': 'peek'}, {'op': 'push', 't': 'STRING', 'v': cps('p')},
+             {'op': 'push', 't': 'NEWLINE', 'v': cps('zz')}, {'op': 'expect', 't': 'STRING', 'skip': True},
+             {'op': 'expect', 't': 'NEWLINE', 'skip': True}, {'op': 'expect', 't': 'BRACE_OPEN', 'skip': False}]
+    n_exh = 0
+    for text in CALL_TEXTS[:8 if thorough else 3]:
+        for n in range(1, 4):
+            for tup in itertools.product(basic, repeat=n):
+                w.write(calls_record(text, toklib.KV_OPTS, list(tup) + [{'op': 'call'}], 'calls-exh'))
+                n_exh += 1
+    for _ in range(20_000 if thorough else 1_500):
+        text = rng.choice(CALL_TEXTS) if rng.random() < 0.3 else rand_text(rng)[:40]
+        o = toklib.opts_from_bits(rng.randrange(128))
+        w.write(calls_record(text, o, rand_script(rng, rng.randrange(1, 16)), 'calls-random'))
+    w.close()
+    print(json.dumps({'records': w.n, 'exhaustive': n_exh}))
+
+
 # ------------------------------------------------------------------ Keyvalues.parse
 def kv_tree(kv) -> list:
     if kv.has_children():
@@ -404,10 +499,16 @@ def kv_tree(kv) -> list:
     return [kv.real_name, kv.line_num, kv.value]
 
 
-def kv_outcome(data, flags: dict) -> dict:
+POPT_NAMES = ('single_line', 'single_block', 'newline_keys', 'newline_values', 'allow_escapes')
+POPT_DEFAULT = {'single_line': False, 'single_block': False, 'newline_keys': False, 'newline_values': True, 'allow_escapes': True}
+
+
+def kv_outcome(data, flags: dict, nchars: int = 1 << 40, popts: dict | None = None) -> dict:
+    toklib.install_step_counter()
+    toklib.set_step_limit(nchars)
     toklib.watchdog_on()
     try:
-        tree = Keyvalues.parse(data, flags=flags)
+        tree = Keyvalues.parse(data, flags=flags, **(popts or {}))
         toklib.watchdog_off()
         return {'etype': '', 'err': toklib.NO_ERR, 'msg': '', 'where': '',
                 'tree': json.dumps(kv_tree(tree), separators=(',', ':'))}
@@ -419,11 +520,12 @@ def kv_outcome(data, flags: dict) -> dict:
         return {'etype': etype, 'err': err, 'msg': msg, 'where': where, 'tree': ''}
 
 
-def kv_record(text: str, flags: dict, rng: random.Random, kind: str) -> dict:
+def kv_record(text: str, flags: dict, rng: random.Random, kind: str, popts: dict | None = None) -> dict:
+    popts = dict(POPT_DEFAULT, **(popts or {}))
     forms = list(small_forms(text)) if len(text) <= 5 else list(big_forms(text, rng))
     groups: dict = {}
     for name, make in forms:
-        out = kv_outcome(make(), flags)
+        out = kv_outcome(make(), flags, len(text), popts)
         key = json.dumps(out, sort_keys=True)
         if key not in groups:
             groups[key] = dict(out, forms=[])
@@ -434,9 +536,16 @@ def kv_record(text: str, flags: dict, rng: random.Random, kind: str) -> dict:
         g['forms'] = g['forms'][:6]
     first = outs[0]
     bad = next((g for g in outs if g['etype'] not in ('', 'KeyValError')), first)
-    return {'k': 'kv', 'text': cps(text), 'o': toklib.KV_OPTS, 'fold': toklib.fold_table(text),
-            'flags': sorted(k for k, v in flags.items() if v), 'outs': outs,
-            'sig': {'kind': kind, 'action': 'Keyvalues.parse', 'etype': bad['etype'], 'where': bad['where']}}
+    return {'k': 'kv', 'text': cps(text), 'o': dict(toklib.KV_OPTS, esc=popts['allow_escapes']), 'fold': toklib.fold_table(text),
+            'flags': sorted(k for k, v in flags.items() if v), 'popts': popts, 'outs': outs,
+            'sig': {'kind': kind, 'action': 'Keyvalues.parse', 'etype': bad['etype'], 'where': bad['where'],
+                    'single_block': popts['single_block']}}
+
+
+def rand_popts(rng: random.Random) -> dict:
+    if rng.random() < 0.5:
+        return dict(POPT_DEFAULT)
+    return {n: (rng.random() < 0.5) for n in POPT_NAMES}
 
 
 KV_TOKENS = ['a', '"b c"', 'x', '[on]', '[!on]', '[off]', '{', '}', '\n', '\r\n', '//c\n', '"v\\n"', '"', '[', '/', "'", '#d', '(p)']
@@ -495,13 +604,16 @@ def mode_kvsoup(out: str) -> None:
         for tup in itertools.product(KV_CORE, repeat=n):
             w.write(kv_record(soup(tup), flags, rng, 'kvsoup'))
             n_exh += 1
+            if n <= 3 or thorough:
+                w.write(kv_record(soup(tup), flags, rng, 'kvsoup', {'single_block': True, 'single_line': n % 2 == 0}))
+                n_exh += 1
     for _ in range(20_000 if thorough else 1_200):
         toks = [rng.choice(KV_CORE if rng.random() < 0.7 else KV_TOKENS) for _ in range(rng.randrange(5, 14))]
-        w.write(kv_record(soup(toks, rng), flags, rng, 'kvsoup'))
+        w.write(kv_record(soup(toks, rng), flags, rng, 'kvsoup', rand_popts(rng)))
     for _ in range(30_000 if thorough else 2_000):
-        w.write(kv_record(soup(kv_mutate(kv_doc(rng), rng), rng), flags, rng, 'kvdoc'))
+        w.write(kv_record(soup(kv_mutate(kv_doc(rng), rng), rng), flags, rng, 'kvdoc', rand_popts(rng)))
     for _ in range(4_000 if thorough else 400):
-        w.write(kv_record(rand_text(rng), flags, rng, 'kvrandom'))
+        w.write(kv_record(rand_text(rng), flags, rng, 'kvrandom', rand_popts(rng)))
     w.close()
     print(json.dumps({'records': w.n, 'exhaustive': n_exh}))
 
@@ -517,8 +629,10 @@ def mode_replay(path: str, out: str) -> None:
         w.write(lex_record(text, r['o'], forms, rep.get('kind', 'replay')))
     elif r['k'] == 'steps':
         w.write(steps_record(text, r['o'], r['edge'] if r['edge']['k'] else None, rep.get('kind', 'replay')))
+    elif r['k'] == 'calls':
+        w.write(calls_record(text, r['o'], r['script'], rep.get('kind', 'replay')))
     elif r['k'] == 'kv':
-        w.write(kv_record(text, {f: True for f in r['flags']}, rng, rep.get('kind', 'replay')))
+        w.write(kv_record(text, {f: True for f in r['flags']}, rng, rep.get('kind', 'replay'), r.get('popts')))
     elif r['k'] == 'cursor':
         chunks = None if r['str'] else [uncps(c) for c in r['chunks']]
         src = CountIter(chunks) if chunks is not None else None
@@ -541,4 +655,4 @@ if __name__ == '__main__':
     warnings.simplefilter('ignore')
     mode = sys.argv[1]
     {'family': mode_family, 'all128': mode_all128, 'edges': mode_edges, 'cursor': mode_cursor, 'random': mode_random,
-     'kvsoup': mode_kvsoup, 'replay': mode_replay}[mode](*sys.argv[2:])
+     'kvsoup': mode_kvsoup, 'calls': mode_calls, 'replay': mode_replay}[mode](*sys.argv[2:])
